@@ -98,11 +98,24 @@ func runC17Conc(c Case, tier string, res *CaseResult) {
 			txs[i] = &cp
 		}
 	}
-	// sequential reference: every member alone, with host objects of its own
-	want := make([]string, n)
+	// sequential reference: every member alone, with host objects of its own. In every other group it is computed AFTER
+	// the concurrent runs, so that the concurrent instances are the first in the process to meet these programs
+	// (nothing analysed, cached or initialised by an earlier run alone)
+	concFirst := c.Seed%2 == 0
+	plain := make([]*c16Tx, n)
 	for i, t := range txs {
-		fs, irs := t.run(nil)
-		want[i] = serializeRun(fs, irs)
+		cp := *t
+		plain[i] = &cp
+	}
+	want := make([]string, n)
+	computeWant := func() {
+		for i, t := range plain {
+			fs, irs := t.run(nil)
+			want[i] = serializeRun(fs, irs)
+		}
+	}
+	if !concFirst {
+		computeWant()
 	}
 	var shared *h.SharedHost
 	if share {
@@ -121,9 +134,11 @@ func runC17Conc(c Case, tier string, res *CaseResult) {
 	// concurrent runs
 	reps := 3
 	var maxOverlap int32
+	gots := make([][]string, reps)
 	for rep := 0; rep < reps; rep++ {
 		var active int32
 		got := make([]string, n)
+		gots[rep] = got
 		var wg sync.WaitGroup
 		start := make(chan struct{})
 		for i := range txs {
@@ -151,6 +166,12 @@ func runC17Conc(c Case, tier string, res *CaseResult) {
 		close(start)
 		wg.Wait()
 		res.Count("concurrent_executions", int64(n))
+	}
+	if concFirst {
+		computeWant()
+		res.Count("groups_concurrent_first", 1)
+	}
+	for _, got := range gots {
 		for i := range txs {
 			if got[i] != want[i] {
 				d := firstDiff(want[i], got[i])
